@@ -277,6 +277,9 @@ package websocket
 //@ ensures [pong] {C15} h.opcode == opPing && err == nil ==> specFrameHeaderOK(c.writeHeader, c.client, true, false, opPong, int(h.payloadLength)) && ghwr(c.bw).pos == old(ghwr(c.bw).pos)+specHdrLen(c.writeHeader)+int(h.payloadLength)
 //@ ensures [pong-payload] {C15} h.opcode == opPing && err == nil && !c.client ==> forall(0, int(h.payloadLength), func(k int) bool { return ghwr(c.bw).out[old(ghwr(c.bw).pos)+specHdrLen(c.writeHeader)+k] == rdin(old(c.br), old(ghrd(c.br).pos)+k) ^ specMaskByte(h.maskKey, k)&specBit(h.masked, 0xff) })
 //@ ensures [pong-silent] {C15} h.opcode == opPong && err == nil ==> ghwr(c.bw).pos == old(ghwr(c.bw).pos)
+//@ ensures [pong-looks-up-own-payload] {C15} h.opcode == opPong && err == nil ==> gvcCalls("map.lookup") == 1 && gvcSameRef(gvcCallArg[map[string]chan<- struct{}]("map.lookup", 0), c.activePings) && len(gvcCallArg[string]("map.lookup", 1)) == int(h.payloadLength) && forall(0, int(h.payloadLength), func(k int) bool { return gvcCallArg[string]("map.lookup", 1)[k] == c.readControlBuf[k] })
+//@ ensures [pong-notifies-only-that-ping] {C15} h.opcode == opPong && err == nil ==> gvcCalls("chan.send") <= 1 && (gvcCalls("chan.send") == 1 ==> gvcCallRes[bool]("map.lookup", 1) && gvcSameRef(gvcCallArg[chan<- struct{}]("chan.send", 0), gvcCallRes[chan<- struct{}]("map.lookup", 0)))
+//@ ensures [pong-payload-is-the-frames] {C15} h.opcode == opPong && err == nil ==> forall(0, int(h.payloadLength), func(k int) bool { return c.readControlBuf[k] == rdin(old(c.br), old(ghrd(c.br).pos)+k) ^ specMaskByte(h.maskKey, k)&specBit(h.masked, 0xff) })
 //@ ensures [legal-size-accepted] {C15 C03} h.fin && 0 < h.payloadLength && h.payloadLength <= 125 && ghrd(old(c.br)).pos == old(ghrd(c.br).pos) ==> ghwr(c.bw).pos == old(ghwr(c.bw).pos)
 //@ ensures [rearm] {C10} err == nil ==> gvcArmed(c.readTimeout) == context.Background()
 //@ ensures [not-eof] err != io.EOF
